@@ -540,7 +540,12 @@ class Printer:
             x = self.var(s[2], k)
             pre = "%srt.Use(" % t
             fld = ".W)" if (self.cur_fd.get("impl") and s[2] == ("L", 0)) else ".V)"
-            self.emit(pre + x + fld, [(s[1], len(pre))])
+            if self.pick(6) == 5:
+                # the selector wrapped onto the next line: the dereference is still reported at the start of `x`
+                self.emit(pre + x + ".", [(s[1], len(pre))])
+                self.emit("%s\t%s" % (t, fld[1:]))
+            else:
+                self.emit(pre + x + fld, [(s[1], len(pre))])
         elif kind == "if":
             self.if_stmt(s, k, ind)
         elif kind == "while":
